@@ -146,6 +146,16 @@ func (processSlice) Corpus() [][]string {
 		}
 		e.must, e.fault = "err", "leading-stream-all-empty"
 		add(e)
+		// a 200 answer with an EMPTY body (no `moof` at all; e.g. a RAM-stored segment that left the window between lookup and
+		// read) is NOT skipped: the client would continue with a hole. Fatal error on a rendition and on the leading stream.
+		h := mk(nil, false)
+		h.streams[1].parts[1] = nil
+		h.must, h.fault = "err", "empty-body-rendition"
+		add(h)
+		k := mk(nil, false)
+		k.streams[0].parts[1] = nil
+		k.must, k.fault = "err", "empty-body-leading"
+		add(k)
 		// a rendition playlist opened directly (its stream is then the leading one) with an empty first and middle part
 		g := mk([]int{0, 1}, false)
 		g.prim, g.audio, g.streams = "media", "none", g.streams[1:]
